@@ -66,7 +66,11 @@ func init() {
 		Trusted: trust("A-SORT", "A-PS")})
 	add(&propSpec{ID: "C18", Level: "proof", Funcs: append([]string{"bexpr.Evaluator.Evaluate", "bexpr.evaluate", "bexpr.evaluateMatchExpression", "bexpr.evaluateCollectionExpression", "bexpr.evaluateCollectionExpression$1", "bexpr.getValue", "bexpr.evaluateNotPresent", "bexpr.Filter.Execute", "bexpr.CreateEvaluator", "bexpr.CreateFilter", "grammar.MaxExpressions"}, optFuncs...),
 		Trusted: trust("A-PS", "A-HOOK")})
-	add(&propSpec{ID: "C10", Level: "proof", Funcs: []string{"bexpr.CreateEvaluator", "bexpr.CreateFilter", "bexpr.compileRegexps", "grammar.MaxExpressions", "grammar.parser.parse", "grammar.parser.parse$1", "grammar.errList.add", "grammar.errList.err", "grammar.errList.dedupe", "grammar.parser.addErr", "grammar.parser.addErrAt"},
+	add(&propSpec{ID: "C10", Level: "proof", Funcs: []string{"bexpr.CreateEvaluator", "bexpr.CreateFilter", "bexpr.compileRegexps", "grammar.MaxExpressions", "grammar.parser.parse", "grammar.parser.parse$1", "grammar.errList.add", "grammar.errList.err", "grammar.errList.dedupe", "grammar.parser.addErr", "grammar.parser.addErrAt",
+		// the engine's value passing (ensures "yields" / "shape" / "fail_nil" against spec/27-peg.smt2)
+		"grammar.parser.parseExpr", "grammar.parser.parseRule", "grammar.parser.parseActionExpr", "grammar.parser.parseAndCodeExpr", "grammar.parser.parseAndExpr", "grammar.parser.parseAnyMatcher",
+		"grammar.parser.parseCharClassMatcher", "grammar.parser.parseChoiceExpr", "grammar.parser.parseLabeledExpr", "grammar.parser.parseLitMatcher", "grammar.parser.parseNotCodeExpr", "grammar.parser.parseNotExpr",
+		"grammar.parser.parseOneOrMoreExpr", "grammar.parser.parseRuleRefExpr", "grammar.parser.parseSeqExpr", "grammar.parser.parseZeroOrMoreExpr", "grammar.parser.parseZeroOrOneExpr"},
 		Extras: []string{"table:typing"}, Trusted: trust("A-ENGINE", "A-ACYCLIC", "A-STACK", "A-REGEXP")})
 	add(&propSpec{ID: "C11", Level: "proof", Funcs: []string{"grammar.parser.parseExpr", "grammar.parser.parseRule", "grammar.parser.parseActionExpr", "grammar.parser.parseAndCodeExpr",
 		"grammar.parser.parseAndExpr", "grammar.parser.parseAnyMatcher", "grammar.parser.parseCharClassMatcher", "grammar.parser.parseChoiceExpr", "grammar.parser.parseLabeledExpr",
